@@ -311,7 +311,7 @@ func (c14a) Gen(r *Rand, i int, tier string) Sx {
 	}
 	next := 1
 	ops := []Sx{}
-	for k := 3 + r.Intn(6); k > 0; k-- {
+	for k := 2 + r.Intn(5); k > 0; k-- {
 		s := slots[r.Intn(len(slots))]
 		g := c14aGroup(s.n)
 		inst := insts[r.Intn(len(insts))]
@@ -321,6 +321,12 @@ func (c14a) Gen(r *Rand, i int, tier string) Sx {
 			size++
 		}
 		kind := []int{0, 0, 0, 0, 0, 0, 0, 1, 1, 1, 1, 1, 1, 1, 1, 2, 2, 3, 3, 3}[r.Intn(20)]
+		if len(ops) == 0 && r.Chance(70) {
+			kind = 0
+		}
+		if kind == 0 && len(g) > 1 && r.Chance(50) {
+			fn = g[1+r.Intn(len(g)-1)] // BLAKE3 / SHA256TREE / GITSHA1
+		}
 		n := s.n
 		if kind >= 2 {
 			switch x := r.Intn(100); {
@@ -347,6 +353,18 @@ func (c14a) Gen(r *Rand, i int, tier string) Sx {
 			next++
 		}
 		ops = append(ops, L(AI(kind), AI(inst), AI(fn), AI(n), AI(s.hi), A(size), AI(val)))
+		// a write under a function that shares its hash length with a legacy one is
+		// mostly followed by reads of that instance name / hash / size under the
+		// functions of that length (client) or without a function (server)
+		if g := c14aGroup(s.n); kind == 0 && len(g) > 1 && r.Chance(70) {
+			for j := 1 + r.Intn(2); j > 0; j-- {
+				if r.Chance(80) {
+					ops = append(ops, L(A(1), AI(inst), AI(g[r.Intn(len(g))]), AI(s.n), AI(s.hi), A(size), A(0)))
+				} else {
+					ops = append(ops, L(A(3), AI(inst), A(0), AI(s.n), AI(s.hi), A(size), A(0)))
+				}
+			}
+		}
 	}
 	return L(L(ops...))
 }
